@@ -339,12 +339,15 @@ def check_class_header_arms(fx, rep, rule, impl):
         guard = [k for k in assign if k[0] == "empty" and k[1][0] == "field" and k[1][1] == old]
         flushed = bool(ins)
         desc.append("%s -> %s" % (S.cstr(a["conds"]), [S.tstr(e)[:100] for e in ins]))
+        if getattr(rl, "sentinel", False) and not flushed:
+            continue        # the sentinel's Class arm did the last registration; the nameless class left over is not registered
         if len(guard) != 1 or (assign[guard[0]] is False) != flushed:
             okep = False
         if flushed and not (ins[0][2] == mk_field(old, keyf) and ins[0][3] == old):
             okep = False
-    rep.check(rule, "%s/epilogue/%s" % (rule, impl), okep and len(ep) >= 2, loc=F.short_file(rl.body["sp"]),
-              found=desc, expected="after the loop the class in progress is registered iff it has a name")
+    rep.check(rule, "%s/epilogue/%s" % (rule, impl), okep and (len(ep) >= 2 or (getattr(rl, "sentinel", False) and len(ep) >= 1)), loc=F.short_file(rl.body["sp"]),
+              found=desc + (["(end-of-mapping sentinel class record: its Class arm registers the last class)"] if getattr(rl, "sentinel", False) else []),
+              expected="after the loop the class in progress is registered iff it has a name")
     return n
 
 
@@ -396,6 +399,16 @@ def check_record_stream(fx, rep, rule, impl, rl):
         t = drv
         if t[0] == "call" and t[1] == "std::iter::Iterator::peekable" and len(t[2]) == 1:
             t = t[2][0]
+        # an end-of-mapping *sentinel*: `.chain(once(Class { original: "", obfuscated: "" }))` - one more class line with empty names after
+        # the last record. Its Class arm registers the last real class (the arm's flush rule is checked like for any class line), interns
+        # two empty strings (no effect: string-table model) and leaves a nameless class in progress, which nothing may register
+        rl.sentinel = False
+        if t[0] == "call" and t[1] == "std::iter::Iterator::chain" and len(t[2]) == 2 and t[2][1][0] == "call" and t[2][1][1] == "std::iter::once" \
+                and len(t[2][1][2]) == 1:
+            sv = t[2][1][2][0]
+            if sv[0] == "adt" and sv[1] == "ProguardRecord" and sv[2] == "Class" and dict(sv[3]) == {"original": ("lit", "str", ""), "obfuscated": ("lit", "str", "")}:
+                rl.sentinel = True
+                t = t[2][0]
         good = t[0] == "call" and t[1] == "std::iter::Iterator::filter_map" and t[2][0] == it and _is_result_ok(fx, t[2][1])
         # `.flatten()` over an iterator of Results: Result's IntoIterator yields the Ok payload once and nothing for Err
         good = good or t == ("call", "std::iter::Iterator::flatten", (it,))
